@@ -1198,7 +1198,7 @@ func init() {
 	register(&property{
 		Meta: propertyMeta{
 			ID:          "C15",
-			Explanation: "Only the second sentence of the property (the BuildURL->Match round trip is not decidable in this family): (C15-INDEX) every API that names a route maintains the name index with last-writer-wins: stores to Route.name occur only in constructors (the route is indexed by appendRoute when registered) or paired on the same path with namedRoutes[sameName] = sameRoute (NamedTo); appendRoute writes namedRoutes[route.name] = route on every path with a non-empty name, before any return; the index is written nowhere else and never deleted from; GetRoute is a plain lookup and BuildURL resolves through it; ToURL builds from the route's own registered pattern. (C15-MEMO) ToURL re-uses a caller-supplied builder through Path(route.path).Build(...): the builder type holds no state derived from its own settings that can go stale — every store into a field of an existing BuildRequestURL whose value depends on a load of another field (placeholders parsed from the path, ...) is either recomputed/invalidated in every function that assigns that other field, or is a keyed memo whose key is re-validated on every path to every use; a virtual type with a stale memo is analysed on every run and must be reported. (C01-SPACE) the text ToURL hands to the builder is literal-space: it is the route's pattern field(s), and nothing that went through the regex escaping steps (quotePointChar, checkAndParseOptional) is ever stored into Route.path / Route.start / a read Route.spath or returned as the table key. (C15-ESCAPE) no store into net/url.URL.Path in the root package derives from PathEscape, QueryEscape, EscapedPath, String, RequestURI or Values.Encode. (C15-SCAN) Build (or a function it reaches by static calls) applies a Find* method of the package variable varRegex to text from the builder's path field; parseParamRoute does the same with the route path. (C15-ARGS) in ToURL, Build, BuildURL, BuildRequestURL and the module functions they call, no MapUpdate / delete / clear has a map operand that can be a parameter, an element of a parameter slice or an assertion of one; and every turn of a range over such a caller-supplied map stores the entry's value under its key (a builder map or url.Values.Add/Set) on every path to the next turn — no filter drops an argument.",
+			Explanation: "Only the second sentence of the property (the BuildURL->Match round trip is not decidable in this family): (C15-INDEX) every API that names a route maintains the name index with last-writer-wins: stores to Route.name occur only in constructors (the route is indexed by appendRoute when registered) or paired on the same path with namedRoutes[sameName] = sameRoute (NamedTo); appendRoute writes namedRoutes[route.name] = route on every path with a non-empty name, before any return; the index is written nowhere else and never deleted from; GetRoute is a plain lookup and BuildURL resolves through it; ToURL builds from the route's own registered pattern. (C15-MEMO) ToURL re-uses a caller-supplied builder through Path(route.path).Build(...): the builder type holds no state derived from its own settings that can go stale — every store into a field of an existing BuildRequestURL whose value depends on a load of another field (placeholders parsed from the path, ...) is either recomputed/invalidated in every function that assigns that other field, or is a keyed memo whose key is re-validated on every path to every use; a virtual type with a stale memo is analysed on every run and must be reported. (C01-SPACE) the text ToURL hands to the builder is literal-space: it is the route's pattern field(s), and nothing that went through the regex escaping steps (quotePointChar, checkAndParseOptional) is ever stored into Route.path / Route.start / a read Route.spath or returned as the table key. (C15-ESCAPE) no store into net/url.URL.Path in the root package derives from PathEscape, QueryEscape, EscapedPath, String, RequestURI or Values.Encode. (C15-SCAN) Build (or a function it reaches by static calls) applies a Find* method of the package variable varRegex to text from the builder's path field; parseParamRoute does the same with the route path. (C15-ARGS) in ToURL, Build, BuildURL, BuildRequestURL and the module functions they call, no MapUpdate / delete / clear has a map operand that can be a parameter, an element of a parameter slice or an assertion of one; and every turn of a range over such a caller-supplied map stores the entry's value under its key (a builder map or url.Values.Add/Set) on every path to the next turn — no filter drops an argument. (C15-SCAN, pattern) the pattern stored into varRegex is regexp.MustCompile of a constant; the checker compiles that constant and requires that each of fourteen witness texts of the documented grammar is cut into exactly the brace groups 'brace, anything but /, brace' (names with '-', '.', non-ASCII letters, padded names, regex parts with braces).",
 			NotDecided:  []string{"the substitution itself in BuildRequestURL.Build: placeholder grammar, escaping, query parameters", "that Match on the built path returns the same route and values (value-level string round trip through net/url)"},
 			Assumptions: []string{"Go map assignment overwrites (last writer wins)"},
 		},
